@@ -32,6 +32,8 @@ type Engine struct {
 	importAlias  map[string]map[string]*types.Package // package path -> import alias -> package
 	allTypesPkgs []*types.Package
 	loopCache    map[*ssa.Function]map[*ssa.BasicBlock]*loopInfo
+	ledgerLoopKeys map[string][]string // loop headers of the unchanged tree (from the ledger), by function
+	srcCache       map[string][]byte
 	globalInit   map[string]globalInitInfo
 
 	obls    []*Obligation
